@@ -740,6 +740,25 @@ class TrajectoryStore:
             if field.required and trajectory._data.get(name) is None:
                 raise ValueError(f'Data field "{name}" is None')
 
+        # Species-indexed values can only be stored for the species in the
+        # species dimension of the files, which is fixed once they exist. Check
+        # this here too, before changing any state.
+        if self.nc_linked and not self._file_creation_pending:
+            for fs_name, nc_file in self._nc.items():
+                fs = FieldSet.from_registry(fs_name)
+                for name in nc_file.groups[fs_name][0].variables:
+                    val = trajectory._data.get(name)
+                    if val is None or Dimension.SPECIES not in fs[name].dimensions:
+                        continue
+                    missing = [
+                        sp.name for sp in val if sp not in (nc_file.species or [])
+                    ]
+                    if missing:
+                        raise ValueError(
+                            f'Data field "{name}" has values for species {missing} '
+                            'that are not in the species dimension of the NetCDF file'
+                        )
+
         # Decide on whether or not we can index the store, checking consistency
         # on this decision with each trajectory we add.
         has_flight_id = (
